@@ -283,7 +283,8 @@ def gen_histories(v0, depth, level, kinds, labels=None, per_evolution=1):
             spec2 = ML.apply(spec, label, mj)
             el = 'e%d' % (len(steps) + 1)
             rec(spec2, steps + [(label, el, [mj])],
-                deleted + ([mj[2]] if mj[0] == 'DeleteField' else []))
+                deleted + ([mj[2]] if mj[0] in ('DeleteField', 'RenameField')
+                           else []))
     rec(v0, [], [])
     return out
 
